@@ -110,3 +110,13 @@ Definition chk_scan (t : list entry) (p : str) (subs : subs_t) (recorded : list 
 Definition chk_all_paths (t : list entry) (exp : list str) : bool := set_eqb_str (all_paths t) exp.
 
 Definition chk_parts_ok (p : str) (subs : subs_t) : bool := conv_parts_ok p subs.
+
+(* the two formulations of the reference agree (where both cover the pattern) *)
+Definition chk_ref_agree (dir_always : bool) (p : str) (subs : subs_t) (paths : list str) : bool :=
+  forallb (fun q => match nglob_ref dir_always p subs q, nglob_ref_comps dir_always p subs q with
+                    | Some a, Some b => Bool.eqb a b
+                    | _, _ => true
+                    end) paths.
+
+Definition ref_comps_supported (p : str) (subs : subs_t) : bool :=
+  match nglob_ref_comps false p subs [97] with Some _ => true | None => false end.
